@@ -317,6 +317,20 @@ def rule_nomemo(ctx, reaching, reach):
             rr.instances += 1
             decs = [e for e in cg.out(f) if e.kind == 'decorator'
                     and e.dst in memo]
+            gw = [w for w in ctx.effects.summ[f.fq].global_writes
+                  if w.fi is f]
+            if gw:
+                w = gw[0]
+                rr.fail(key_of(f, 'module-level state on volatile path'),
+                        '%s lies on a call path from volatile %s to %s and '
+                        'keeps state in the module-level object %s (%s): a '
+                        'value read from the clock/generator can be served '
+                        'again on a later calculation' % (
+                            f.qualname, reg.key, sorted(reach[fq])[0],
+                            w.is_global, w.describe()),
+                        file=f.module.rel, function=f.qualname, line=w.lineno,
+                        path=cg.path_to(fwd, fq))
+                continue
             if decs:
                 rr.fail(key_of(f, 'memoised on volatile path'),
                         '%s is memoised (%s) and lies on a call path from '
